@@ -331,6 +331,15 @@ pub fn known_match<'a>(known: &'a [J], prop: &str, clause: &str, s: &Script) -> 
 // worker
 // ---------------------------------------------------------------------------------------------
 
+/// replay files of the non-default build flavours carry the flavour in their name
+pub fn build_tag() -> &'static str {
+    match crate::BUILD {
+        "rel" => "",
+        "dbg" => "-dbg",
+        _ => "-simd",
+    }
+}
+
 pub fn replay_dir() -> String {
     std::env::var("VERIF_REPLAY_DIR").unwrap_or_else(|_| "/verif/replays".to_string())
 }
@@ -434,7 +443,7 @@ pub fn worker(def: &CheckDef, a: &WorkerArgs) -> i32 {
                             let mut w = s.clone();
                             w.clause = v.clause.clone();
                             w.detail = v.detail.clone();
-                            let path = format!("{}/{}-s{}-i{}.json", replay_dir(), def.id, a.seed, i);
+                            let path = format!("{}/{}-s{}-i{}{}.json", replay_dir(), def.id, a.seed, i, build_tag());
                             let _ = std::fs::create_dir_all(replay_dir());
                             let _ = std::fs::write(&path, w.to_json().pretty());
                             e.1 = path;
@@ -454,7 +463,7 @@ pub fn worker(def: &CheckDef, a: &WorkerArgs) -> i32 {
                     };
                     m.clause = clause.clone();
                     m.detail = detail.clone();
-                    let path = format!("{}/{}-s{}-i{}.json", replay_dir(), def.id, a.seed, i);
+                    let path = format!("{}/{}-s{}-i{}{}.json", replay_dir(), def.id, a.seed, i, build_tag());
                     let _ = std::fs::create_dir_all(replay_dir());
                     if let Err(e) = std::fs::write(&path, m.to_json().pretty()) {
                         harness_err = Some(format!("cannot write replay {}: {}", path, e));
@@ -710,7 +719,7 @@ pub fn run_batch(def: &CheckDef, tier: Tier, seed: u64) -> BatchResult {
                                 let mut s2 = s.clone();
                                 s2.clause = format!("{}.process_outcome", def.id);
                                 s2.detail = what.clone();
-                                let path = format!("{}/{}-s{}-i{}.json", replay_dir(), def.id, seed, i);
+                                let path = format!("{}/{}-s{}-i{}{}.json", replay_dir(), def.id, seed, i, build_tag());
                                 let _ = std::fs::create_dir_all(replay_dir());
                                 let _ = std::fs::write(&path, s2.to_json().pretty());
                                 let mut vj = J::obj();
